@@ -93,6 +93,7 @@ impl<T: ?Sized> RwLock<T> {
       };
       self.wrap_r(r, Some(c))
     } else if monitor_mode() {
+      crate::exec::monitor_tick();
       let r = match self.inner.try_read() {
         Ok(g) => Ok(g),
         Err(TryLockError::Poisoned(p)) => Err(p),
@@ -122,6 +123,7 @@ impl<T: ?Sized> RwLock<T> {
       };
       self.wrap_w(r, Some(c))
     } else if monitor_mode() {
+      crate::exec::monitor_tick();
       let r = match self.inner.try_write() {
         Ok(g) => Ok(g),
         Err(TryLockError::Poisoned(p)) => Err(p),
@@ -317,6 +319,7 @@ impl<T: ?Sized> Mutex<T> {
       let r = self.real_after_grant("Mutex::lock");
       self.wrap(r, Some(c))
     } else if monitor_mode() {
+      crate::exec::monitor_tick();
       let r = match self.inner.try_lock() {
         Ok(g) => Ok(g),
         Err(TryLockError::Poisoned(p)) => Err(p),
